@@ -219,8 +219,11 @@ class Single(Stream):
                 f.detail = 'phase_step=%r call=%s: %s' % (case.get('step'), case.get('call', 'kw'), f.detail)
                 fs.setdefault(f.kind, f)
         if out.get('readonly', 'same') != 'same':
+            # "for any wrapped phase time-course detection never fails": a phase held in a non-writeable array is a phase
+            # time-course, so a call that RAISES on it is the property's own words failing; a different answer is only
+            # mechanism-level here (values in a read-only array are C19's subject)
             fs['ro'] = Failure('read-only-phase:' + out['readonly'], 'the same call on the same values held in a non-writeable array',
-                               literal=False)
+                               literal=bool(lit) and out['readonly'].startswith('raises:'))
         if out.get('modified'):
             fs['mod'] = Failure('input-modified', "the caller's phase array no longer holds its values after the call", literal=False)
         return list(fs.values())
